@@ -49,12 +49,29 @@ class Block:
         self.sidecar_line = sidecar_line  # line number in the sidecar of first content line
         self.tags = {}                # offset -> (oblig id, [props])
         cur = None
+        own = {}
         for k, l in enumerate(lines):
             m = TAG_RE.search(l)
             if m:
                 cur = (m.group(1), [p.strip() for p in m.group(2).split(',') if p.strip()])
+                own[k] = cur
             if cur:
                 self.tags[k] = cur
+        # a tag at the END of a multi-line clause also covers the clause's earlier lines: walk back while the
+        # parentheses / brackets / braces of the tagged line are not yet balanced
+        def bal(l):
+            code = re.sub(r'//.*$', '', l)
+            return sum(code.count(c) for c in '([{') - sum(code.count(c) for c in ')]}')
+        for k, t in own.items():
+            depth = bal(lines[k])
+            j = k - 1
+            def continues(l):
+                code = re.sub(r'//.*$', '', l).rstrip()
+                return code.endswith(('==>', '&&', '||', '<==>', '==', '+', '='))
+            while j >= 0 and j not in own and (depth < 0 or continues(lines[j])):
+                self.tags[j] = t
+                depth += bal(lines[j])
+                j -= 1
 
 
 def parse_sidecar(path):
